@@ -47,6 +47,7 @@ class Ctx:
         self.fact_keys = set()
         self.assumed = []        # names of assumed library contracts used on this path
         self.solver = None
+        self.known = {}          # id(cond) -> (cond, bool): conditions decided on this path (used to resolve ite eagerly)
 
     def fact(self, f, key=None):
         if f is True:
@@ -586,9 +587,37 @@ def simplies(a, b):
     return sor(snot(a), b)
 
 
+def known_truth(c):
+    """Truth value of condition c if the current path has already decided it (fork / assume), else None."""
+    if CUR is None or not is_z3(c):
+        return None
+    k = CUR.known.get(c.get_id())
+    if k is not None:
+        return k[1]
+    if z3.is_not(c):
+        k = CUR.known.get(c.arg(0).get_id())
+        if k is not None:
+            return not k[1]
+    return None
+
+
+def resolve(t):
+    """Rewrite term t with the propositional flags already decided on the current path (then simplify)."""
+    if CUR is None or not is_z3(t) or not CUR.known:
+        return t
+    subs = [(c, z3.BoolVal(v)) for c, v in CUR.known.values() if z3.is_const(c) and c.decl().kind() == z3.Z3_OP_UNINTERPRETED]
+    if not subs:
+        return t
+    return N(z3.simplify(z3.substitute(t, *subs)))
+
+
 def site(c, a, b):
     """if-then-else on scalars."""
     c = truthy(c)
+    if is_z3(c):
+        kt = known_truth(c)
+        if kt is not None:
+            c = kt
     if c is True:
         return N(a)
     if c is False:
